@@ -40,7 +40,7 @@ type Property struct {
 	HangIsViolation  bool
 	// DeathClass names the input class of case k (stable across seeds) for the signature of a process death.
 	DeathClass func(tier string, seed int64, k int64) string
-	NeedPty          bool
+	NeedPty    bool
 	// Race: the thorough tier additionally runs RaceCases cases on RaceG goroutines under -race.
 	RaceCases int64
 	// Setup is run once per worker before the first case.
